@@ -95,7 +95,13 @@ def fixed_cases():
 def strategy(tier):
     S = values.strategies()
     st = S['st']
-    return st.fixed_dictionaries({'v': S['value'], 'cfg': S['cfg']})
+    # long flat containers take the "will not fit anyway" shortcut of the sequence printer (> 150 columns minimum)
+    long_seq = st.tuples(st.sampled_from(['list', 'tuple', 'set', 'fset']),
+                         st.lists(st.one_of(S['r_int'], S['r_const'], S['r_str']), min_size=45, max_size=70)).map(lambda p: [p[0], p[1]])
+    long_dict = st.lists(st.tuples(S['r_int'], S['leaf']).map(list), min_size=45, max_size=60).map(lambda kv: ['dict', kv])
+    value = st.one_of(S['value'], S['value'], S['value'], S['value'], S['value'], S['value'], long_seq, long_dict,
+                      st.tuples(long_seq, S['value']).map(lambda p: ['list', [p[0], p[1]]]))
+    return st.fixed_dictionaries({'v': value, 'cfg': S['cfg']})
 
 
 def oracle(case):
